@@ -156,6 +156,10 @@ def match_known(known, pid, engine, unit, f):
                 continue
             if k.get('site_contains') and k['site_contains'] not in (f.get('site_text') or ''):
                 continue
+            if k.get('exit_context_contains') and k['exit_context_contains'] not in (f.get('exit_context') or ''):
+                continue
+            if k.get('exit_context_startswith') and not (f.get('exit_context') or '').startswith(k['exit_context_startswith']):
+                continue
             if k.get('exit_contains') and k['exit_contains'] not in (f.get('exit_text') or ''):
                 continue
             return k
@@ -269,7 +273,7 @@ def main():
             n_known_here = 0
             seen_clause = set()
             for f in fn_fail:
-                keyc = (f['kind'], f['clause_line'], f['site_line'], f.get('exit_text'))
+                keyc = (f['kind'], f['clause_line'], f['site_line'], f.get('exit_text'), f.get('exit_line'))
                 if keyc in seen_clause:
                     continue
                 seen_clause.add(keyc)
@@ -284,7 +288,7 @@ def main():
                     undecided.append('unit %s: %s: obligation failed after a proof hint lost its anchor (%s): undecided' % (uname, e['name'], lost[0][1]))
                     continue
                 violations.append(dict(engine='verus', unit=uname, function=e['name'], src=e['src'], src_lines=e['src_lines'],
-                                       obligation=dict(kind=f['kind'], clause=f['clause_text'], tags=f['tags'], call_site=f['site_text'], at_exit=f.get('exit_text')),
+                                       obligation=dict(kind=f['kind'], clause=f['clause_text'], tags=f['tags'], call_site=f['site_text'], at_exit=f.get('exit_text'), exit_context=f.get('exit_context')),
                                        verifier_output=f['rendered'], generated_file=prov['generated'],
                                        provenance=[it for it in prov['items'] if it.get('name') == e['name']][:1]))
             # obligations recorded as known findings are reported separately and not counted as attempted
